@@ -1,7 +1,9 @@
 ------------------------------- MODULE RateLimit -------------------------------
 (* (C20) ratelimit/listener.go + conn.go + ratelimit.go for ONE direction of one *)
-(* listener: a token bucket shared by all accepted connections; every Read/Write *)
-(* moves its bytes first and then calls WaitN for them (post-paid).              *)
+(* listener: a token bucket shared by all accepted connections.  A Write pays   *)
+(* (WaitN) before its bytes go out; a Read has taken its bytes off the socket   *)
+(* when it pays, but hands them on only afterwards - seen from the receiving    *)
+(* end both are pre-paid.  (As found, Write was post-paid: mutant PostPaid.)     *)
 EXTENDS Integers, FiniteSets, TLC, Json
 
 CONSTANTS Conns, Burst, R, Chunk, Horizon,
@@ -10,11 +12,13 @@ CONSTANTS Conns, Burst, R, Chunk, Horizon,
           MaxWait,   \* mutant (if > 0): WaitN gives up - charging nothing - when the wait would exceed MaxWait ticks
           BigUncharged, \* as found: an I/O of more bytes than the burst is not charged at all (WaitN refuses n > burst
                         \* at once, and the refusal is ignored)
+          PostPaid,  \* as found (Write): the bytes go out first and are paid for afterwards - the first I/O of every
+                     \* fresh connection is free, whatever the limiter's debt
           Batch      \* mutant (if > 0): a connection charges the limiter only once Batch bytes have piled up; what is
                      \* still pending when the connection ends is never charged
 
-VARIABLES now, tokens, last, wake, moved, wStart, wMoved, pend
-vars == <<now, tokens, last, wake, moved, wStart, wMoved, pend>>
+VARIABLES now, tokens, last, wake, moved, wStart, wMoved, pend, owed
+vars == <<now, tokens, last, wake, moved, wStart, wMoved, pend, owed>>
 
 Bk(c) == IF PerConn THEN c ELSE "shared"
 Buckets == IF PerConn THEN Conns ELSE {"shared"}
@@ -23,9 +27,10 @@ CeilDiv(a, b) == (a + b - 1) \div b
 
 Init == /\ now = 0 /\ tokens = [b \in Buckets |-> Burst] /\ last = [b \in Buckets |-> 0]
         /\ wake = [c \in Conns |-> 0] /\ moved = 0 /\ wStart = 0 /\ wMoved = 0 /\ pend = [c \in Conns |-> 0]
+        /\ owed = [c \in Conns |-> 0]       \* bytes paid for and waiting for their time to go out
 
 Tick == /\ now < Horizon /\ now' = now + 1
-        /\ UNCHANGED <<tokens, last, wake, moved, wStart, wMoved, pend>>
+        /\ UNCHANGED <<tokens, last, wake, moved, wStart, wMoved, pend, owed>>
 
 \* one I/O of n bytes by connection c, followed by limiter.WaitN(n)  (x/time/rate reservation)
 IO(c, n) ==
@@ -41,18 +46,28 @@ IO(c, n) ==
      /\ IF giveUp \/ due = 0 THEN UNCHANGED <<tokens, last>>
         ELSE tokens' = [tokens EXCEPT ![b] = left] /\ last' = [last EXCEPT ![b] = now]
      /\ wake' = [wake EXCEPT ![c] = IF NoWait \/ giveUp \/ due = 0 THEN now ELSE now + need]
-  /\ moved' = moved + n
+  \* post-paid: out at once; pre-paid: out when the reservation's time has come (Deliver)
+  /\ owed[c] = 0
+  /\ IF PostPaid THEN moved' = moved + n /\ UNCHANGED owed
+                 ELSE owed' = [owed EXCEPT ![c] = n] /\ UNCHANGED moved
   /\ UNCHANGED <<now, wStart, wMoved>>
+Deliver(c) == /\ owed[c] > 0 /\ wake[c] <= now
+              /\ moved' = moved + owed[c] /\ owed' = [owed EXCEPT ![c] = 0]
+              /\ UNCHANGED <<now, tokens, last, wake, wStart, wMoved, pend>>
+\* the peer has what it wanted and comes back on a fresh connection, which is not parked anywhere (the goroutine of the old
+\* one may still be waiting in the limiter)
+Fresh(c) == /\ owed[c] = 0 /\ wake[c] > now /\ wake' = [wake EXCEPT ![c] = now]
+            /\ UNCHANGED <<now, tokens, last, moved, wStart, wMoved, pend, owed>>
 
 \* the connection ends and another one takes its place on the listener (short-lived connections): whatever it had not
 \* been charged for is forgotten
 Reopen(c) == /\ wake[c] <= now /\ pend[c] > 0 /\ pend' = [pend EXCEPT ![c] = 0]
-             /\ UNCHANGED <<now, tokens, last, wake, moved, wStart, wMoved>>
+             /\ UNCHANGED <<now, tokens, last, wake, moved, wStart, wMoved, owed>>
 
 \* an observer may start measuring at any instant
-StartWindow == /\ wStart' = now /\ wMoved' = moved /\ UNCHANGED <<now, tokens, last, wake, moved, pend>>
+StartWindow == /\ wStart' = now /\ wMoved' = moved /\ UNCHANGED <<now, tokens, last, wake, moved, pend, owed>>
 
-Next == Tick \/ StartWindow \/ \E c \in Conns : Reopen(c) \/ \E n \in 1..Chunk : IO(c, n)
+Next == Tick \/ StartWindow \/ \E c \in Conns : Reopen(c) \/ Deliver(c) \/ Fresh(c) \/ \E n \in 1..Chunk : IO(c, n)
 Spec == Init /\ [][Next]_vars
 
 \* over any window the bytes moved stay within burst + R*elapsed, plus at most one
@@ -68,6 +83,9 @@ Crowd == 64
 Cases == [read : Limits, write : Limits, conns : 1..3, dir : {"download", "upload"}, kind : {"plain", "tunnel"}, churn : {FALSE}]
          \cup [read : {0, 1}, write : {0, 1}, conns : {Crowd}, dir : {"download", "upload"}, kind : {"plain", "tunnel"}, churn : {FALSE}]
          \cup [read : {0, 4}, write : {0, 4}, conns : {4}, dir : {"download", "upload"}, kind : {"plain"}, churn : {TRUE}]
+\* tiny: every worker fetches its share 3000 bytes at a time, each over a fresh connection: no connection ever makes a second
+\* I/O of any size, so a limiter that is paid after the bytes have gone out never holds anything back (mutant PostPaid)
+TinyCases == [read : {4}, write : {0}, conns : {4}, dir : {"download"}, kind : {"plain"}, churn : {TRUE}]
 \* big: one reply body reaches the listener in a single write larger than the burst (with --log-http body the proxy holds
 \* the whole body in memory); the cases carry big |-> TRUE
 BigCases == [read : {4}, write : {0}, conns : {1}, dir : {"download"}, kind : {"plain"}, churn : {FALSE}]
@@ -80,6 +98,7 @@ LimitFor(c) == IF c.dir = "download" THEN c.read ELSE c.write
 Expect(c) == [limited |-> LimitFor(c) # 0, rate |-> LimitFor(c)]
 EmitCases == /\ \A c \in Cases : PrintT(ToJson([c |-> c, exp |-> Expect(c), big |-> FALSE]))
              /\ \A c \in BigCases : PrintT(ToJson([c |-> c, exp |-> Expect(c), big |-> TRUE]))
+             /\ \A c \in TinyCases : PrintT(ToJson([c |-> c, exp |-> Expect(c), big |-> FALSE, tiny |-> TRUE]))
              /\ \A c \in FastCases : PrintT(ToJson([c |-> c, exp |-> Expect(c), big |-> FALSE, fast |-> TRUE]))
              /\ \A b \in Bandwidths : PrintT(ToJson([bandwidth |-> b, rate |-> b]))
 ==============================================================================
